@@ -193,6 +193,24 @@ func (c *Client) Take() []string {
 	return out
 }
 
+// Await waits until the client has received a packet whose rendering starts with prefix
+// (the acknowledgement of the request just sent), or the connection died, or 3 s passed.
+func (c *Client) Await(prefix string) bool {
+	deadline := time.Now().Add(3 * time.Second)
+	for time.Now().Before(deadline) {
+		c.mu.Lock()
+		for _, g := range c.got {
+			if strings.HasPrefix(g, prefix) || g == "closed" {
+				c.mu.Unlock()
+				return true
+			}
+		}
+		c.mu.Unlock()
+		time.Sleep(100 * time.Microsecond)
+	}
+	return false
+}
+
 // Settle waits until no client has received anything new for a short while and the presence
 // queue is empty.
 func (b *Broker) Settle() {
